@@ -741,9 +741,34 @@ func oneFlush(pi int, req *spb.FlushRequest, desc string) (string, []fail) {
 			return
 		}
 		before = canon(s)
+		mb, _ := ribx.Snapshot(s.VerifRIB())
 		_, ferr = s.Flush(context.Background(), req)
 		rt.Quiesce()
 		after = canon(s)
+		// An accepted Flush must name a scope: all instances or one existing instance (anything else - no scope,
+		// an empty or unknown name - is malformed), and must have emptied exactly that scope.
+		if ferr == nil && mb != nil {
+			var scope []string
+			switch v := req.GetNetworkInstance().(type) {
+			case *spb.FlushRequest_All:
+				for n := range mb.NIs {
+					scope = append(scope, n)
+				}
+			case *spb.FlushRequest_Name:
+				if mb.NIs[v.Name] {
+					scope = []string{v.Name}
+				}
+			}
+			if scope == nil {
+				out = append(out, fail{"C12/malformed-flush-accepted", fmt.Sprintf("%s: a Flush that names no existing network instance was answered OK", name)})
+			} else if ma, err := ribx.Snapshot(s.VerifRIB()); err == nil {
+				want := mb.Clone()
+				want.Flush(scope...)
+				if ma.Canon() != want.Canon() {
+					out = append(out, fail{"C12/accepted-flush-removed-wrong-scope", fmt.Sprintf("%s: answered OK for scope %v; contents afterwards %q, expected %q", name, scope, ma.Canon(), want.Canon())})
+				}
+			}
+		}
 		out = append(out, probe(s, "after "+name)...)
 	})
 	switch {
